@@ -51,7 +51,7 @@ class Event:
         self.kind = kind           # raise | assert | call | return | store | del
         self.term = term
         self.pc: Tuple[Conj, ...] = tuple(ctx.pc)
-        self.loops: Tuple[Tuple[str, Term, bool], ...] = tuple(ctx.loops)
+        self.loops: Tuple[Tuple[Any, ...], ...] = tuple(ctx.loops)
         self.tries: Tuple[TryInfo, ...] = tuple(ctx.tries)
         self.withs: Tuple[Term, ...] = tuple(ctx.withs)
         self.func = ctx.fi.qualname
@@ -92,12 +92,15 @@ class Ctx:
         self.fi = fi
         self.scope = scope
         self.pc: List[Conj] = []
-        self.loops: List[Tuple[str, Term, bool]] = []
+        self.loops: List[Tuple[Any, ...]] = []
         self.tries: List[TryInfo] = []
         self.withs: List[Term] = []
         self.chain: Tuple[Tuple[str, int], ...] = ()
         self.depth = depth
         self.stmt_id = 0
+        self.freeze = False                         # transparent helper: events belong to the caller's statement
+        self.captured: Optional[List["Event"]] = None   # returns of a transparent helper
+        self.inl: Tuple[str, ...] = ()              # transparent helpers currently being expanded (recursion guard)
 
     def child(self, fi: FuncInfo, scope: Scope, line: int) -> "Ctx":
         c = Ctx(fi, scope, self.depth + 1)
@@ -220,7 +223,20 @@ class Walker:
         self.max_depth = depth
         self.typer = typer or Typer(repo)
         self.unresolved: List[str] = []
+        self.api: Optional[Set[str]] = None
+        try:
+            import json
+            import os
+            p_ = os.path.join(os.path.dirname(os.path.dirname(os.path.dirname(os.path.abspath(__file__)))), "reference", "api_functions.json")
+            with open(p_) as fh:
+                self.api = set(json.load(fh))
+        except Exception:
+            self.api = None
         self._cache: Dict[Tuple[str, int, bool], Summary] = {}
+
+    def transparent(self, qualname: str) -> bool:
+        """functions that did not exist when the rule tables were written (helpers extracted later) are looked through"""
+        return self.api is not None and qualname not in self.api and qualname in self.repo.functions
 
     # ------------------------------------------------------------------ public
     def summary(self, qualname: str, depth: Optional[int] = None, heap: bool = False) -> Summary:
@@ -250,6 +266,10 @@ class _Run:
         self.cur: Ctx
         self._loop_n = 0
         self._new_n = 0
+        self.reader_ctx = "deserialize" in fi.name     # stream reads get an identity: two safe_read(f, 32) are different values
+        self._read_n = 0
+        self.builders: Dict[Term, List[Tuple[Term, Tuple[Any, ...], Tuple[Conj, ...]]]] = {}
+        self.dirty: Set[Term] = set()
         self.tests: Dict[int, Term] = {}
         self.iters: Dict[int, Term] = {}
 
@@ -288,12 +308,14 @@ class _Run:
     def emit(self, kind: str, term: Term, line: int, **extra: Any) -> Event:
         ctx = self.cur
         e = Event(kind, term, ctx, line, **extra)
+        if self.norm.guard_stack:
+            e.pc = e.pc + tuple(Conj(g, "branch", line) for g in self.norm.guard_stack)
         # comprehension context
         if self.norm.comp_stack:
             loops = list(e.loops)
             pc = list(e.pc)
             for dom, conds in self.norm.comp_stack:
-                loops.append(("comp", dom, False))
+                loops.append(("comp", dom, False, len(pc)))
                 for c in conds:
                     pc.append(Conj(c, "filter", line))
             e.loops = tuple(loops)
@@ -346,26 +368,72 @@ class _Run:
             return out
         return []
 
-    def on_call(self, term: Term, node: ast.Call, scope: Scope, parts: Tuple[Term, List[Term], List[Tuple[str, Term]]]) -> None:
+    def on_call(self, term: Term, node: ast.Call, scope: Scope, parts: Tuple[Term, List[Term], List[Tuple[str, Term]]]) -> Optional[Term]:
         f, args, kwargs = parts
         targets = self.resolve_targets(f, scope)
-        ev = self.emit("call", term, node.lineno, targets=targets, parts=parts)
         ctx = self.cur
+        tagged = False
+        if self.reader_ctx and term[0] == "call" and self._is_stream_op(f, targets):
+            self._read_n += 1
+            term = ("call", term[1], term[2], term[3] + (("#", C(self._read_n)),))
+            tagged = True
+        if f[0] == "a" and f[1][0] == "new":
+            if f[2] in ("append", "add") and len(args) == 1 and not kwargs and f[1][1] in ("list", "set"):
+                self.builders.setdefault(f[1], []).append((args[0], tuple(ctx.loops), tuple(ctx.pc)))
+            elif f[2] in MUTATORS:
+                self.dirty.add(f[1])
         real = [t for t in targets if not t.startswith("new:")]
+        # a helper that is not part of the recorded API (extracted later by a maintainer) is transparent: its events are the
+        # caller's events and its value is expanded in place, so extracting / inlining helpers changes nothing for the rules
+        if len(real) == 1 and not any(t.startswith("new:") for t in targets) and self.w.transparent(real[0]) \
+                and real[0] != ctx.fi.qualname and real[0] not in ctx.inl and len(ctx.inl) < 6:
+            return self.inline_transparent(self.repo.functions[real[0]], f, args, kwargs, node.lineno)
+        ev = self.emit("call", term, node.lineno, targets=targets, parts=parts)
+        ret = term if tagged else None
         if any(t.startswith("new:") for t in targets):
-            return   # constructors are not inlined
+            return ret   # constructors are not inlined
         if len(real) != 1:
-            return
+            return ret
         callee = self.repo.functions[real[0]]
         if ctx.depth >= self.max_depth:
-            return
+            return ret
         if callee.qualname == ctx.fi.qualname or any(callee.qualname == c[0] for c in ctx.chain):
-            return   # recursion
-        if self.norm.comp_stack and False:
-            return
+            return ret   # recursion
         self.inline(callee, f, args, kwargs, node.lineno, ev)
+        return ret
 
-    def inline(self, callee: FuncInfo, f: Term, args: List[Term], kwargs: List[Tuple[str, Term]], line: int, ev: Event) -> None:
+    STREAM_FUNCS = ("skepticoin.serialization.safe_read", "skepticoin.serialization.stream_deserialize_vlq",
+                    "skepticoin.serialization.stream_deserialize_list")
+
+    def _is_stream_op(self, f: Term, targets: List[str]) -> bool:
+        if any(t in self.STREAM_FUNCS for t in targets):
+            return True
+        if f[0] == "a" and f[2] in ("stream_deserialize", "read", "tell", "seek", "readinto", "read1"):
+            return True
+        return False
+
+    def inline_transparent(self, callee: FuncInfo, f: Term, args: List[Term], kwargs: List[Tuple[str, Term]], line: int) -> Optional[Term]:
+        ctx = self.cur
+        n_pc = len(ctx.pc)
+        captured: List[Event] = []
+        ok = self.inline(callee, f, args, kwargs, line, None, transparent=True, captured=captured)
+        if not ok:
+            return None
+        # value of the helper: its returns folded into one conditional term (conditions relative to the call site)
+        val: Optional[Term] = None
+        for r in reversed(captured):
+            rel = [c.term for c in r.pc[n_pc:] if c.prov in ("branch", "handler", "loopcond", "filter")]
+            cond = mk_and(rel)
+            if r.loops[len(ctx.loops):]:
+                return ("opaque", "return inside a loop of %s" % callee.name)
+            if val is None or cond == C(True):
+                val = r.term
+            else:
+                val = self.norm.mk_ife(cond, r.term, val)
+        return val if val is not None else C(None)
+
+    def inline(self, callee: FuncInfo, f: Term, args: List[Term], kwargs: List[Tuple[str, Term]], line: int, ev: Optional[Event],
+               transparent: bool = False, captured: Optional[List[Event]] = None) -> bool:
         ctx = self.cur
         outer = None
         if callee.parent is not None:
@@ -388,7 +456,7 @@ class _Run:
             bound[params[0]] = recv
             params = params[1:]
         if any(x[0] == "call" and x[1] == ("g", "builtin:star") for x in pos) or any(k == "**" for k, _ in kwargs):
-            return
+            return False
         for p, v in zip(params, pos):
             bound[p] = v
         for k_, v in kwargs:
@@ -412,20 +480,37 @@ class _Run:
                     self.norm.var_types[v] = ty
         saved = self.cur
         self.cur = ctx.child(callee, scope, line)
+        if self.norm.guard_stack:
+            for g in self.norm.guard_stack:
+                self.cur.pc.append(Conj(g, "branch", line))
+        if transparent:
+            self.cur.chain = ctx.chain
+            self.cur.depth = ctx.depth
+            self.cur.freeze = True
+            self.cur.stmt_id = ctx.stmt_id
+            self.cur.captured = captured
+            self.cur.inl = ctx.inl + (callee.qualname,)
+        else:
+            self.cur.inl = ctx.inl
         # comprehension context becomes part of the callee's loop context
         if self.norm.comp_stack:
             for dom, conds in self.norm.comp_stack:
-                self.cur.loops.append(("comp", dom, False))
+                self.cur.loops.append(("comp", dom, False, len(self.cur.pc)))
                 for c in conds:
                     self.cur.pc.append(Conj(c, "filter", line))
         saved_stack = self.norm.comp_stack
+        saved_guards = self.norm.guard_stack
         self.norm.comp_stack = []
+        self.norm.guard_stack = []
         try:
             self.block(func_body(callee))
-            ev.inlined = True
+            if ev is not None:
+                ev.inlined = True
         finally:
             self.cur = saved
             self.norm.comp_stack = saved_stack
+            self.norm.guard_stack = saved_guards
+        return True
 
     # ------------------------------------------------------------------ statements
     def block(self, stmts: List[ast.stmt]) -> Set[str]:
@@ -439,7 +524,8 @@ class _Run:
         return out
 
     def stmt(self, st: ast.stmt) -> Set[str]:
-        self.cur.stmt_id = id(st)
+        if not self.cur.freeze:
+            self.cur.stmt_id = id(st)
         m = getattr(self, "s_" + type(st).__name__, None)
         if m is None:
             self.unknown.append("%s:%d %s" % (self.cur.fi.module.path, st.lineno, type(st).__name__))
@@ -465,7 +551,10 @@ class _Run:
 
     def s_Return(self, st: ast.Return) -> Set[str]:
         v = self.N(st.value) if st.value is not None else C(None)
-        self.emit("return", v, st.lineno)
+        if self.cur.captured is not None:
+            self.cur.captured.append(Event("return", v, self.cur, st.lineno))
+        else:
+            self.emit("return", v, st.lineno)
         return {"return"}
 
     def s_Raise(self, st: ast.Raise) -> Set[str]:
@@ -506,6 +595,8 @@ class _Run:
         if isinstance(tgt, (ast.Attribute, ast.Subscript)):
             t = self.N(_as_load(tgt))
             self.emit("store", t, line, value=value)
+            if t[0] == "s" and t[1][0] == "new" and t[1][1] == "dict":
+                self.builders.setdefault(t[1], []).append((("tuple", (t[2], value)), tuple(self.cur.loops), tuple(self.cur.pc)))
             if self.heap and isinstance(tgt, ast.Attribute) and isinstance(tgt.value, ast.Name):
                 scope.env["@%s.%s" % (tgt.value.id, tgt.attr)] = value
             return
@@ -649,6 +740,8 @@ class _Run:
     def s_For(self, st: ast.For) -> Set[str]:
         ctx = self.cur
         it = self.N(st.iter)
+        if it[0] == "comp" and it[1] == "list" and it[3] and not st.orelse:
+            return self._for_over_comp(st, it)
         dom, _roles = self.norm.iter_domain(it)
         self.iters[id(st)] = dom
         names = assigned_names(st.body) | assigned_names([ast.Assign(targets=[st.target], value=ast.Constant(0), lineno=st.lineno)])
@@ -659,12 +752,13 @@ class _Run:
             ctx.scope.env[n] = ("lv", n, 0)
         self.norm.bind_target(st.target, it, ctx.scope)
         base_pc = list(ctx.pc)
-        ctx.loops.append(("for", dom, contains_jump(st.body, (ast.Break, ast.Return))))
+        ctx.loops.append(("for", dom, contains_jump(st.body, (ast.Break, ast.Return)), len(ctx.pc)))
         acc_terms: Dict[str, Term] = {}
         # evaluate accumulator increments in loop scope (before walking: walking re-evaluates them too)
         out_b = self.block_with_acc(st.body, accs, acc_terms)
         ctx.loops.pop()
         ctx.pc = base_pc
+        self._finish_builders()
         self._havoc(names - set(accs))
         for n, aug in accs.items():
             init = pre.get(n, ("v", n))
@@ -682,6 +776,98 @@ class _Run:
                 self._havoc(assigned_names(st.orelse) | (names - set(accs)))
         out |= (out_b - {"break", "continue", "fall"})
         return out
+
+    def _for_over_comp(self, st: ast.For, it: Term) -> Set[str]:
+        """`for x in (e for a in A for b in B if c): body`  ==  `for a in A: for b in B: if c: x = e; body`"""
+        ctx = self.cur
+        names = assigned_names(st.body) | assigned_names([ast.Assign(targets=[st.target], value=ast.Constant(0), lineno=st.lineno)])
+        self._havoc(names)
+        base_pc = list(ctx.pc)
+        early = contains_jump(st.body, (ast.Break, ast.Return))
+        n = 0
+        for dom, conds in it[3]:
+            ctx.loops.append(("for", dom, early, len(ctx.pc)))
+            n += 1
+            for c in conds:
+                ctx.pc.append(Conj(c, "filter", st.lineno))
+        self.assign_target(st.target, it[2], st.lineno)
+        out_b = self.block(st.body)
+        del ctx.loops[len(ctx.loops) - n:]
+        ctx.pc = base_pc
+        self._havoc(names)
+        self._finish_builders()
+        return {"fall"} | (out_b - {"break", "continue", "fall"})
+
+    def _finish_builders(self) -> None:
+        """`xs = []; for ..: [if c:] xs.append(e)`  ==  `[e for .. if c]` (likewise sets and dicts); two complementary
+        append sites are one conditional element."""
+        ctx = self.cur
+        depth = len(ctx.loops)
+        for X in list(self.builders):
+            if len(X[3]) != depth or X in self.dirty:
+                if len(X[3]) >= depth:
+                    continue
+            recs = self.builders[X]
+            if len(X[3]) != depth:
+                continue
+            del self.builders[X]
+            if X in self.dirty or not recs or any(len(r[1]) <= depth for r in recs):
+                continue
+            if any(tuple(l[1] for l in r[1][:depth]) != X[3] for r in recs):
+                continue
+            term = self._comp_from(X, recs, depth)
+            if term is None:
+                continue
+            env = ctx.scope.env
+            for n, v in list(env.items()):
+                if v == X:
+                    env[n] = term
+
+    def _comp_from(self, X: Term, recs: List[Tuple[Term, Tuple[Any, ...], Tuple[Conj, ...]]], depth: int) -> Optional[Term]:
+        def split(rec):  # type: ignore
+            elt, loops, pc = rec
+            rel = loops[depth:]
+            if any(l[0] != "for" or l[2] for l in rel):
+                return None
+            gens = []
+            for i, l in enumerate(rel):
+                lo = l[3]
+                hi = rel[i + 1][3] if i + 1 < len(rel) else len(pc)
+                conds = []
+                for c in pc[lo:hi]:
+                    if c.prov in ("branch", "cont-surv", "filter"):
+                        conds.append(c.term)
+                    elif c.prov == "raise-surv":
+                        continue
+                    else:
+                        return None
+                gens.append((l[1], conds))
+            # nothing conditional between the container's creation and the first loop
+            if any(c.prov not in ("raise-surv",) for c in pc[len([0]) - 1 + 0:0]):
+                return None
+            return elt, gens
+        parts = [split(r) for r in recs]
+        if any(p is None for p in parts):
+            return None
+        kind = X[1]
+        if len(parts) == 1:
+            elt, gens = parts[0]
+        elif len(parts) == 2:
+            (e1, g1), (e2, g2) = parts
+            if [g[0] for g in g1] != [g[0] for g in g2] or g1[:-1] != g2[:-1]:
+                return None
+            c1, c2 = list(g1[-1][1]), list(g2[-1][1])
+            common = [c for c in c1 if c in c2]
+            d1 = [c for c in c1 if c not in common]
+            d2 = [c for c in c2 if c not in common]
+            if len(d1) != 1 or len(d2) != 1 or mk_not(d1[0]) != d2[0]:
+                return None
+            elt = self.norm.mk_ife(d1[0], e1, e2)
+            gens = g1[:-1] + [(g1[-1][0], common)]
+        else:
+            return None
+        from .terms import fuse_comp, key as _key
+        return fuse_comp(("comp", kind, elt, tuple((d, tuple(sorted(cs, key=_key))) for d, cs in gens)))
 
     def block_with_acc(self, body: List[ast.stmt], accs: Dict[str, ast.AugAssign], acc_terms: Dict[str, Term]) -> Set[str]:
         out: Set[str] = {"fall"}
@@ -704,7 +890,7 @@ class _Run:
         cond = self.N(st.test)
         self.tests[id(st)] = cond
         base_pc = list(ctx.pc)
-        ctx.loops.append(("while", cond, contains_jump(st.body, (ast.Break, ast.Return))))
+        ctx.loops.append(("while", cond, contains_jump(st.body, (ast.Break, ast.Return)), len(ctx.pc)))
         if cond != C(True):
             ctx.pc = base_pc + [Conj(cond, "loopcond", st.lineno)]
         out_b = self.block(st.body)
